@@ -71,7 +71,7 @@ def literal_value(n):
     return None
 
 
-def approx_guards(pm, node, stop=None):
+def approx_guards(pm, node, stop=None, with_tol=False):
     """[(holds: bool, x node, v node)] ApproxEq facts on the path to `node` (enclosing ifs and earlier
     sibling early exits), innermost first"""
     out = []
@@ -86,7 +86,7 @@ def approx_guards(pm, node, stop=None):
             elif child is e:
                 pol = False
             if pol is not None:
-                out += approx_facts(c, pol)
+                out += approx_facts(c, pol, with_tol)
         elif k == 'CompoundStmt':
             for s in kids(anc):
                 if s is child:
@@ -94,27 +94,27 @@ def approx_guards(pm, node, stop=None):
                 if s.get('kind') == 'IfStmt':
                     c, t, e = flow.if_parts(s)
                     if flow.exits(t) and not (e is not None and flow.exits(e)):
-                        out += approx_facts(c, False)
+                        out += approx_facts(c, False, with_tol)
                     elif e is not None and flow.exits(e) and not flow.exits(t):
-                        out += approx_facts(c, True)
+                        out += approx_facts(c, True, with_tol)
         if anc is stop:
             break
         child = anc
     return out
 
 
-def approx_facts(c, positive):
+def approx_facts(c, positive, with_tol=False):
     c = strip(c)
     if c.get('kind') == 'UnaryOperator' and c.get('opcode') == '!':
-        return approx_facts(kids(c)[0], not positive)
+        return approx_facts(kids(c)[0], not positive, with_tol)
     m = match_approx(c)
     if m:
-        return [(positive, m[0], m[1])]
+        return [(positive, m[0], m[1], m[2])] if with_tol else [(positive, m[0], m[1])]
     if c.get('kind') == 'BinaryOperator' and c.get('opcode') in ('&&', '||'):
         a, b = kids(c)
         # (A || B) false => both false ; (A && B) true => both true
         if (c['opcode'] == '||' and not positive) or (c['opcode'] == '&&' and positive):
-            return approx_facts(a, positive) + approx_facts(b, positive)
+            return approx_facts(a, positive, with_tol) + approx_facts(b, positive, with_tol)
     return []
 
 
@@ -158,6 +158,8 @@ def zero_divisor(chk, prog, files):
     R = chk.rule('G.zero-divisor', 'a floating division by a cell of a column-scaling vector lies in the false arm of '
                  'ApproxEq(that cell, 0, eps) and the true arm stores exactly 0 to the same destination')
     n = 0
+    tolerances = []
+    chk.extra_tolerances = tolerances
     for f in prog.all_funcs():
         if f.unit.name not in files:
             continue
@@ -194,6 +196,8 @@ def zero_divisor(chk, prog, files):
                         guard_if = anc
                         break
                 child = anc
+            if guard_if is not None:
+                tolerances.append((f, node, literal_value(match_approx(flow.if_parts(guard_if)[0])[2]), guard_if))
             if guard_if is None:
                 chk.instance(R, desc + ': no zero test on the divisor', 'refuted')
                 chk.violation(Finding('G.zero-divisor', rel(f.file), f.name, 'div:' + dkey, f.unit.where(node),
@@ -745,3 +749,179 @@ def centered_spread(chk, prog, names):
                                       '%s: the spread `%s` handed to the caller is not a sum of squared deviations (cell - mean): %s; a constant '
                                       'column then yields a tiny non-zero or negative value (NaN after sqrt) instead of exactly 0' % (
                                           name, v['referencedDecl']['name'], why)))
+
+
+# ---------------------------------------------------------------------------------------
+# fit / apply agreement (sibling branches of MatrixPreprocess)
+
+def fit_apply_agreement(chk, prog):
+    """MatrixPreprocess has a fit branch (statistics computed, then applied) and an apply branch (stored statistics applied).
+    "Applying the stored averages/scalings to the same matrix reproduces the training transform" requires the two branches to
+    treat every cell alike: the same kind of store (centre / scale / zero a spread-less column) must sit under the same
+    approximate-equality guards -- same tested cell role, same reference value, same tolerance, same polarity."""
+    R = chk.rule('FA.agree', 'the fit branch and the apply branch of MatrixPreprocess perform each kind of cell store (centre, scale, zero) '
+                 'under the same ApproxEq guards: same cell role, reference value, tolerance and polarity')
+    f = prog.funcs.get('MatrixPreprocess')
+    if f is None or f.body is None:
+        chk.broke('MatrixPreprocess not found')
+        return
+    P = [p.get('name') for p in f.params]
+    if len(P) < 5:
+        chk.broke('MatrixPreprocess signature changed')
+        return
+    orig, typ, avg, scal, trans = P[:5]
+    top = None
+    for s_ in kids(f.body):
+        if s_.get('kind') == 'IfStmt':
+            c, t, e = flow.if_parts(s_)
+            txt = f.unit.text(c).replace(' ', '')
+            if e is not None and '%s->size==0' % avg in txt and '%s->size==0' % scal in txt:
+                top = (s_, t, e)
+    if top is None:
+        chk.broke('MatrixPreprocess: the fit/apply split `if(colaverage->size == 0 && colscaling->size == 0)` was not found')
+        return
+    pm = flow.parent_map(f.body)
+
+    def base_of(e):
+        e = strip(e)
+        if e.get('kind') == 'CallExpr' and callee_name(e) in ('getDVectorValue', 'getMatrixValue'):
+            b = strip(call_args(e)[0])
+            return b['referencedDecl'].get('name') if b.get('kind') == 'DeclRefExpr' else None
+        while e.get('kind') == 'ArraySubscriptExpr':
+            e = strip(kids(e)[0])
+        if e.get('kind') == 'MemberExpr' and e.get('name') == 'data':
+            b = strip(kids(e)[0])
+            return b['referencedDecl'].get('name') if b.get('kind') == 'DeclRefExpr' else None
+        return None
+
+    role = {orig: 'input cell', trans: 'output cell', avg: 'average', scal: 'scaling'}
+
+    def classify(n):
+        """kind of a store into the output matrix"""
+        l = kids(n)[0]
+        if base_of(l) != trans:
+            return None
+        if n.get('kind') == 'CompoundAssignOperator' and n.get('opcode') == '/=' and base_of(kids(n)[1]) == scal:
+            return 'scale'
+        if n.get('kind') == 'BinaryOperator' and n.get('opcode') == '=':
+            r = strip(kids(n)[1])
+            if literal_value(r) == 0.0:
+                return 'zero'
+            if r.get('kind') == 'BinaryOperator' and r.get('opcode') == '-' and base_of(kids(r)[0]) == orig and base_of(kids(r)[1]) == avg:
+                return 'centre'
+            if r.get('kind') == 'BinaryOperator' and r.get('opcode') == '/' and base_of(kids(r)[1]) == scal:
+                return 'scale'
+            if base_of(r) == orig:
+                return 'copy'
+        return 'other'
+
+    def describe(arm):
+        out = {}
+        for n in walk(arm):
+            if not (is_assign(n) and n.get('kind') in ('BinaryOperator', 'CompoundAssignOperator')):
+                continue
+            k = classify(n)
+            if k is None:
+                continue
+            gs = set()
+            for (pol, x, v, tol) in approx_guards(pm, n, stop=arm, with_tol=True):
+                r_ = role.get(base_of(x), f.unit.text(x))
+                gs.add((r_, literal_value(v), literal_value(tol), pol))
+            out.setdefault(k, []).append((n, frozenset(gs)))
+        return out
+    fit, app = describe(top[1]), describe(top[2])
+
+    def fmt(gs):
+        return '{' + ', '.join('%s %s %g (tolerance %g)' % (r_, '~=' if pol else 'not ~=', v if v is not None else float('nan'),
+                                                             t if t is not None else float('nan')) for r_, v, t, pol in sorted(gs, key=repr)) + '}'
+    n_inst = 0
+    for kind in ('centre', 'scale', 'zero'):
+        if kind not in fit or kind not in app:
+            if kind in fit or kind in app:
+                chk.instance(R, 'MatrixPreprocess: `%s` stores exist in one branch only' % kind, 'undecided')
+            continue
+        fit_sets = {g for _, g in fit[kind]}
+        for n, g in app[kind]:
+            n_inst += 1
+            # the output-cell / input-cell distinction is immaterial for the missing test: both name the cell being transformed
+            norm = lambda gs: frozenset((('cell' if r_ in ('input cell', 'output cell') else r_), v, t, pol) for r_, v, t, pol in gs)
+            if any(norm(g) == norm(h) for h in fit_sets):
+                chk.instance(R, '%s MatrixPreprocess apply branch: `%s` store under %s, as in the fit branch' % (f.unit.where(n), kind, fmt(g)))
+            else:
+                ref = sorted(fit_sets, key=repr)[0]
+                miss = norm(ref) - norm(g)
+                extra = norm(g) - norm(ref)
+                chk.instance(R, '%s MatrixPreprocess apply branch: `%s` store under %s, fit branch %s' % (f.unit.where(n), kind, fmt(g), fmt(ref)), 'refuted')
+                chk.violation(Finding('FA.agree', rel(f.file), f.name, 'apply:%s' % kind, f.unit.where(n),
+                                      'MatrixPreprocess: in the apply branch the `%s` store `%s` is guarded by %s but the fit branch performs it under %s '
+                                      '(missing in apply: %s; only in apply: %s): re-applying the stored statistics to the training matrix does not '
+                                      'reproduce the training transform for the cells on which the guards differ'
+                                      % (kind, f.unit.text(n)[:70], fmt(g), fmt(ref), fmt(miss), fmt(extra))))
+    if n_inst < 3:
+        chk.broke('MatrixPreprocess: only %d comparable stores between the fit and the apply branch, floor 3' % n_inst)
+    # every other place that re-applies stored scalings uses the zero-spread tolerance of the fit branch
+    R2 = chk.rule('FA.tolerance', 'every guarded division by a stored column scaling tests the scaling against 0 with the tolerance of the '
+                  'fit branch of MatrixPreprocess (a column is zeroed at projection time exactly when it was zeroed at training time)')
+    tols = getattr(chk, 'extra_tolerances', [])
+    ref = [t for g, n, t, gi in tols if g is f and any(x is n for x in walk(top[1]))]
+    if not ref or ref[0] is None:
+        chk.broke('FA.tolerance: the zero-spread tolerance of the fit branch was not found')
+        return
+    for g, n, t, gi in tols:
+        if g is f and any(x is n for x in walk(top[1])):
+            continue
+        if g is f:
+            continue        # the apply branch of MatrixPreprocess itself is compared by FA.agree
+        if t == ref[0]:
+            chk.instance(R2, '%s %s: zero-spread tolerance %g, as at training time' % (g.unit.where(gi), g.name, t))
+        else:
+            chk.instance(R2, '%s %s: zero-spread tolerance %s, training uses %g' % (g.unit.where(gi), g.name, t, ref[0]), 'refuted')
+            chk.violation(Finding('FA.tolerance', rel(g.file), g.name, 'tol:%s' % cell_key(kids(n)[1]), g.unit.where(gi),
+                                  '%s zeroes a column when |scaling| < %s but the training transform (MatrixPreprocess fit branch) does so when '
+                                  '|scaling| < %g: a column whose scaling lies between the two is scaled at training time and zeroed (or the '
+                                  'reverse) when the model is applied' % (g.name, t, ref[0])))
+
+
+def reprojection_stats(chk, prog, fit='PLS', apply='PLSScorePredictor', fields=('xcolaverage', 'xcolscaling')):
+    """the predictor re-applies exactly the statistics the fit stored: same routine, same model fields, and an option (< 0) under
+    which empty statistics mean "copy" (option -1 at training time stores nothing)"""
+    R = chk.rule('RP.same-stats', 'the score predictor preprocesses its input with MatrixPreprocess on the same model fields the fit filled, '
+                 'with a negative option (empty statistics => copy)')
+    ff, fa = prog.funcs.get(fit), prog.funcs.get(apply)
+    if ff is None or fa is None:
+        chk.broke('%s / %s not found' % (fit, apply))
+        return
+
+    def calls(f):
+        out = []
+        for cn, node in f.calls:
+            if cn == 'MatrixPreprocess':
+                a = call_args(node)
+                if len(a) == 5:
+                    flds = []
+                    for x in a[2:4]:
+                        x = strip(x)
+                        flds.append(x.get('name') if x.get('kind') == 'MemberExpr' else None)
+                    out.append((node, a, tuple(flds)))
+        return out
+    cf = [c for c in calls(ff) if c[2] == tuple(fields)]
+    ca = calls(fa)
+    if len(cf) != 1:
+        chk.broke('%s: %d calls MatrixPreprocess(.., model->%s, model->%s, ..), expected 1' % (fit, len(cf), fields[0], fields[1]))
+        return
+    if not ca:
+        chk.instance(R, '%s does not call MatrixPreprocess' % apply, 'refuted')
+        chk.violation(Finding('RP.same-stats', rel(fa.file), fa.name, 'no-preprocess', fa.where,
+                              '%s no longer preprocesses its input with MatrixPreprocess: the training transform is not re-applied' % apply))
+        return
+    for node, a, flds in ca:
+        opt = literal_value(a[1])
+        good = flds == tuple(fields) and opt is not None and opt < 0
+        if good:
+            chk.instance(R, '%s %s: MatrixPreprocess(x, %g, model->%s, model->%s, X)' % (fa.unit.where(node), apply, opt, flds[0], flds[1]))
+        else:
+            chk.instance(R, '%s %s: MatrixPreprocess with statistics %s, option %s' % (fa.unit.where(node), apply, flds, opt), 'refuted')
+            chk.violation(Finding('RP.same-stats', rel(fa.file), fa.name, 'stats', fa.unit.where(node),
+                                  '%s preprocesses with (%s, %s) and option %s; the fit stored its statistics in (%s, %s) and empty statistics must '
+                                  'mean "copy" (negative option): re-projecting the training X does not reproduce the training transform'
+                                  % (apply, flds[0], flds[1], fa.unit.text(a[1]), fields[0], fields[1])))
